@@ -464,12 +464,12 @@ fn next_forced(id: usize) -> u16 {
 
 /// What a scripted child does when it stays pending.
 fn pending_side_effects(id: usize, cx: &Context<'_>) {
-    if w().opts == 0 {
+    if w().opts & 3 == 0 {
         // quiet children: no wake-ups from inside a poll (concrete test, so that the wake
-        // code below is not even explored)
+        // code below is not even explored); bit 2 of `opts` = wake-ups between operations only
         return;
     }
-    let d = any_u8() & (w().opts | 0xfc);
+    let d = any_u8() & ((w().opts & 3) | 0xfc);
     if d & 1 != 0 {
         // wake myself from inside my own poll
         let w = w();
